@@ -42,12 +42,129 @@ def o_auc(y, P):
 def o_logloss(y, P): return -sum(math.log(float(P[i, y[i]])) for i in range(len(y))) / len(y)
 
 
+def _is_finite(v):
+    return isinstance(v, (int, float)) and math.isfinite(v)
+
+
+def nonfinite(ck, name, v, where, replay, regime='generated'):
+    """A metric value that is not a finite number is a wrong VALUE (every textbook definition in the quantifier is a finite rational / logarithm
+    of entries >= 1e-6) and it defeats every score comparison of the library (NaN compares False both ways): report the input, never crash on it."""
+    if _is_finite(v):
+        return False
+    ck.violation(f'{name} returned the non-finite value {v!r} on {where}', dict(replay, metric=name, got=repr(v)), key=json.dumps(dict(site='non-finite', metric=name, regime=regime)))
+    return True
+
+
+def confusion(y, yh, K):
+    C = np.zeros((K, K), dtype=int)
+    for a, b in zip(y, yh):
+        C[int(a), int(b)] += 1
+    return C.tolist()
+
+
+# ---- predictions designed through their confusion matrix (rows = true class, columns = predicted class) ----
+CONF_PATTERNS = ('hit-never', 'once-wrong', 'swap', 'never-predicted', 'precision-one', 'recall-one', 'shift', 'one-hit', 'sparse')
+CONF_STYLES = ('sharp', 'soft', 'margin', 'float64')
+
+
+def conf_counts(rng, K, profile):
+    """per-class number of targets (every class present)"""
+    if profile == 0:
+        m = rng.integers(2, 5, size=K)                       # small
+    elif profile == 1:
+        m = np.ones(K, dtype=int); m[rng.integers(0, K)] = 2  # (almost) one target per class
+    elif profile == 2:
+        m = rng.integers(3, 10, size=K)                      # medium
+    else:
+        m = rng.integers(1, 3, size=K); m[rng.integers(0, K)] = int(rng.integers(25, 41))   # one dominant class
+    return [int(v) for v in m]
+
+
+def conf_matrix(rng, K, m, pat, c):
+    """A K x K count matrix with row sums m whose per-class counts sit on the corners of the F1 / precision / recall definitions:
+    TP_c = 0 with FP_c > 0 (predicted, never correctly), FP_c = 0, FN_c = 0, an empty column (never predicted), all diagonal entries 0, ..."""
+    C = np.diag(m).astype(int)
+    others = [d for d in range(K) if d != c]
+
+    def scatter(row, cnt, targets):               # move cnt of row's correct predictions to the given wrong classes
+        for j in range(cnt):
+            C[row, row] -= 1; C[row, targets[j % len(targets)]] += 1
+    if pat in ('hit-never', 'once-wrong'):
+        spread = others if rng.random() < 0.5 else [others[0]]
+        scatter(c, m[c], spread)                                # class c is never recognised ...
+        fps = 1 if pat == 'once-wrong' else int(rng.integers(1, 4))
+        donors = sorted(others, key=lambda d: -m[d])
+        for j in range(fps):                                    # ... but it IS predicted, for targets of other classes
+            d = donors[j % len(donors)]
+            if C[d, d] > 0 and (C[d, d] > 1 or j == 0):
+                C[d, d] -= 1; C[d, c] += 1
+        if C[:, c].sum() == 0:
+            d = donors[0]; C[d, d] -= 1; C[d, c] += 1
+    elif pat == 'swap':
+        d = others[0]
+        C[c, c] = 0; C[c, d] = m[c]; C[d, d] = 0; C[d, c] = m[d]
+    elif pat == 'never-predicted':
+        scatter(c, m[c], others)
+    elif pat == 'precision-one':
+        scatter(c, max(1, m[c] // 2) if m[c] > 1 else 0, others)
+        for d in others[:1]:
+            rest = [e for e in range(K) if e not in (d, c)]
+            if C[d, d] > 1 and rest: scatter(d, 1, rest)
+    elif pat == 'recall-one':
+        for d in others:
+            if C[d, d] > 0: scatter(d, int(rng.integers(1, C[d, d] + 1)), [c])
+    elif pat == 'shift':
+        sft = 1 + (c % (K - 1))
+        C = np.zeros((K, K), dtype=int)
+        for a in range(K): C[a, (a + sft) % K] = m[a]
+    elif pat == 'one-hit':
+        C = np.zeros((K, K), dtype=int)
+        for a in range(K): C[a, a if a == c else (a + 1) % K] = m[a]
+    else:                                                       # sparse random confusion: many structural zeros, also on the diagonal
+        C = np.zeros((K, K), dtype=int)
+        for a in range(K):
+            for j in range(m[a]):
+                C[a, int(rng.integers(0, K)) if rng.random() < 0.6 else a] += 1
+            if rng.random() < 0.4 and C[a, a] > 0:
+                C[a, (a + 1) % K] += C[a, a]; C[a, a] = 0
+    assert (C >= 0).all() and C.sum(1).tolist() == list(m), (pat, C, m)
+    return C
+
+
+def conf_labels(rng, C):
+    K = C.shape[0]
+    y = np.array([a for a in range(K) for b in range(K) for _ in range(C[a, b])], dtype=np.int64)
+    yh = np.array([b for a in range(K) for b in range(K) for _ in range(C[a, b])], dtype=np.int64)
+    perm = rng.permutation(len(y))
+    return y[perm], yh[perm]
+
+
+def conf_probas(rng, yh, K, style):
+    """valid probability rows (entries >= 1e-6) whose unique arg-max is the designed label"""
+    n = len(yh); r = np.arange(n)
+    if style == 'sharp':
+        P = np.full((n, K), 1e-6); P[r, yh] = 1.0 - (K - 1) * 1e-6
+    elif style == 'margin':                     # the winner leads by a margin far above float32 resolution, far below a confident prediction
+        P = np.full((n, K), 1.0) + 0.01 * rng.integers(0, 3, size=(n, K)); P[r, yh] = 1.0 + 0.01 * 2 + 0.01 * rng.integers(1, 4, size=n)
+        P /= P.sum(1, keepdims=True)
+    else:
+        P = rng.uniform(0.05, 0.2, size=(n, K)); P[r, yh] = 0.55 + rng.uniform(0.0, 0.3, size=n)
+        P /= P.sum(1, keepdims=True)
+    P = P.astype(np.float64 if style == 'float64' else np.float32)
+    assert (P.argmax(1) == yh).all() and (P >= 1e-6).all()
+    top2 = np.sort(P, axis=1)[:, -2:]
+    assert ((top2[:, 1] - top2[:, 0]) > 1e-4).all()
+    return P
+
+
 def run(ck):
     from harness import xr
     from xrfm.rfm_src.metrics import Metric
     ck.rule = ('Metric.from_name(n).compute on perfect, constant, adversarial (all wrong), tied-score and random arrays (1-3 outputs / 2-5 classes, all '
                'classes present, probabilities >= 1e-6) for all 8 metrics vs the Coq Q model (vm_compute; rmse via its square, log-loss by an interval '
                'lemma) and vs exact textbook definitions; direction flags exhaustively; perfect predictions vs the others in the declared direction. '
+               'Predictions designed through their confusion matrix (a class predicted but never correctly, predicted once wrongly, swapped classes, never predicted, '
+               'precision 1, recall 1, shifts, sparse) x 2-5 classes x size profiles x probability styles, all 5 classification metrics vs the exact definitions; a non-finite value is a violation. '
                'non-trivial = non-constant predictions; distinct by hash of the arrays')
     ck.trusted += ['Coq 8.16.1 kernel + vm_compute', 'Interval 4.6.1 for ln', 'exact Fraction re-statement of the textbook definitions']
     ck.assumptions += ['float32 metric arithmetic compared within 2e-6 relative (+1e-7)', 'sklearn clips log-loss probabilities only below 1e-6 (outside the quantifier)']
@@ -79,6 +196,8 @@ def run(ck):
             wantf = math.sqrt(want) if name == 'rmse' else float(want)
             ck.case(dict(metric=name, kind=kind, T=T.tolist(), P=P.tolist(), value=v), nontrivial=kind != 'perfect', sample=(k == 0))
             ck.count(f'{name}:{kind}')
+            if nonfinite(ck, name, v, f'targets {T.tolist()} predictions {P.tolist()} (kind {kind}; textbook value {wantf})', dict(T=T.tolist(), P=P.tolist(), want=wantf)):
+                continue
             if abs(v - wantf) > 3e-6 * (1 + abs(wantf)):
                 ck.violation(f'{name} returned {v}, textbook value {wantf} (kind {kind})', dict(metric=name, T=T.tolist(), P=P.tolist(), got=v, want=wantf),
                              key=json.dumps(dict(site='value', metric=name)))
@@ -103,6 +222,8 @@ def run(ck):
                     ck.count(f'{name}: integer-typed targets rejected ({type(e).__name__})'); continue       # rejecting them is not a wrong value
                 want = orc(Ti.astype(np.float32), Pi); wantf = math.sqrt(want) if name == 'rmse' else float(want)
                 ck.case(dict(metric=name, kind='integer targets', dtype=str(idt), T=Ti.tolist(), P=Pi.tolist(), value=v), nontrivial=True); ck.count(f'{name}:integer-typed targets')
+                if nonfinite(ck, name, v, f'{idt} targets {Ti.tolist()} with float predictions {Pi.tolist()} (textbook value {wantf})', dict(T=Ti.tolist(), P=Pi.tolist(), want=wantf, dtype=str(idt))):
+                    continue
                 if abs(v - wantf) > 3e-6 * (1 + abs(wantf)):
                     ck.violation(f'{name} returned {v} on {idt} targets {Ti.tolist()} with float predictions {Pi.tolist()}, textbook value {wantf}',
                                  dict(metric=name, T=Ti.tolist(), P=Pi.tolist(), got=v, want=wantf, dtype=str(idt)), key=json.dumps(dict(site='value', metric=name, kind='integer-targets')))
@@ -117,7 +238,7 @@ def run(ck):
                 dd = (Pb.astype(np.float64) - Tb.astype(np.float64))
                 wantf = float(np.mean(dd ** 2)) if name == 'mse' else (float(np.sqrt(np.mean(dd ** 2))) if name == 'rmse' else float(np.mean(np.abs(dd))))
                 ck.case(dict(metric=name, kind='large', n=nbig, m=mcols, value=v), nontrivial=True); ck.count(f'{name}:large validation set')
-                if abs(v - wantf) > 2e-5 * (1 + abs(wantf)):
+                if not abs(v - wantf) <= 2e-5 * (1 + abs(wantf)):
                     ck.violation(f'{name} returned {v} on {nbig} rows x {mcols} outputs, textbook value {wantf} (residuals: +0.25 on the first third, +4 on the last 5 rows)',
                                  dict(metric=name, n=nbig, m=mcols, got=v, want=wantf), key=json.dumps(dict(site='value-large', metric=name)))
             yb = rng.integers(0, 3, size=nbig); yb[:3] = np.arange(3)
@@ -127,7 +248,7 @@ def run(ck):
                 v = float(Metric.from_name(name).compute(y_true_class=torch.tensor(yb), y_pred_proba=torch.tensor(Pc)))
                 wantf = float(orc(yb, Pc))
                 ck.case(dict(metric=name, kind='large', n=nbig, value=v), nontrivial=True); ck.count(f'{name}:large validation set')
-                if abs(v - wantf) > 5e-5 * (1 + abs(wantf)):
+                if not abs(v - wantf) <= 5e-5 * (1 + abs(wantf)):
                     ck.violation(f'{name} returned {v} on {nbig} rows, textbook value {wantf}', dict(metric=name, n=nbig, got=v, want=wantf), key=json.dumps(dict(site='value-large', metric=name)))
     # ---------- classification metrics ----------
     for k in range(ck.n(50, 500)):
@@ -164,13 +285,16 @@ def run(ck):
             want = float(orc(y, P))
             ck.case(dict(metric=name, kind=kind, y=y.tolist(), P=P.tolist(), value=v), nontrivial=kind not in ('perfect',), sample=(k == 4 and name == 'auc'))
             ck.count(f'{name}:{kind}')
+            if nonfinite(ck, name, v, f'y_true={y.tolist()} predicted labels (arg-max of the probabilities)={P.argmax(1).tolist()} (K={K}, kind {kind}, confusion matrix '
+                                      f'rows=true cols=predicted {confusion(y, P.argmax(1), K)}); textbook value {want}', dict(y=y.tolist(), P=P.tolist(), want=want, kind=kind)):
+                continue
             tol = 3e-6 * (1 + abs(want)) if name != 'logloss' else 2e-5 * (1 + abs(want))
             if name == 'brier':
                 tol = 5e-6 * abs(want) + 1e-13         # a mean of squares of exactly representable residuals: every partial result carries a RELATIVE rounding error only
             if name in ('brier', 'logloss') and v < 0:
                 ck.violation(f'{name} is negative: {v} (textbook value {want}; kind {kind}, K={K})', dict(metric=name, y=y.tolist(), P=P.tolist(), got=v, want=want),
                              key=json.dumps(dict(site='negative', metric=name)))
-            if abs(v - want) > tol:
+            if not abs(v - want) <= tol:
                 ck.violation(f'{name} returned {v}, textbook value {want} (kind {kind}, K={K})', dict(metric=name, y=y.tolist(), P=P.tolist(), got=v, want=want),
                              key=json.dumps(dict(site='value', metric=name, kind=kind)))
             # history: the same metric evaluated again on OTHER labels that live at the same address (a label buffer refilled in place between
@@ -185,7 +309,10 @@ def run(ck):
                     want2 = float(orc(y2, P))
                     ck.count(f'{name}: refilled label buffer')
                     tol2 = (5e-6 * abs(want2) + 1e-13) if name == 'brier' else (3e-6 * (1 + abs(want2)) if name != 'logloss' else 2e-5 * (1 + abs(want2)))
-                    if abs(v2 - want2) > tol2:
+                    if nonfinite(ck, name, v2, f'y_true={y2.tolist()} predicted labels (arg-max of the probabilities)={P.argmax(1).tolist()} (K={K}, kind {kind}, labels written into a '
+                                              f'reused buffer); textbook value {want2}', dict(y=y2.tolist(), y_first=y.tolist(), P=P.tolist(), want=want2, kind=kind), regime='reused-buffer'):
+                        pass
+                    elif not abs(v2 - want2) <= tol2:
                         ck.violation(f'{name} returned {v2} on labels written into a reused buffer, textbook value {want2} (the previous evaluation used other labels at the same address; kind {kind}, K={K})',
                                      dict(metric=name, y_first=y.tolist(), y=y2.tolist(), P=P.tolist(), got=v2, want=want2), key=json.dumps(dict(site='value-reused-buffer', metric=name)))
                 except Exception as e:
@@ -197,11 +324,11 @@ def run(ck):
             if name != 'logloss':
                 vt = float(Metric.from_name(name).compute(y_true_class=yt, y_pred_proba=torch.tensor(np.eye(K, dtype=np.float32)[y])))
                 for other, vo in (('these predictions', v), ('near-perfect predictions (1e-6 off one-hot)', vp)):
-                    if (flags[name] and vt < vo) or (not flags[name] and vt > vo):
+                    if not ((vt >= vo) if flags[name] else (vt <= vo)):          # negated form: a NaN score fails it
                         ck.violation(f'{name}: predictions identical to the targets score {vt}, {other} score {vo}: they are ranked BETTER than the targets themselves '
                                      f'(direction flag {flags[name]})', dict(metric=name, y=y.tolist(), P=P.tolist(), identical=vt, other=vo),
                                      key=json.dumps(dict(site='direction-identical', metric=name)))
-            if (flags[name] and vp < v - 1e-9) or (not flags[name] and vp > v + 1e-9):
+            if not ((vp >= v - 1e-9) if flags[name] else (vp <= v + 1e-9)):
                 ck.violation(f'{name}: perfect predictions score {vp}, these predictions score {v}: direction flag {flags[name]} is not truthful',
                              dict(metric=name, y=y.tolist(), P=P.tolist()), key=json.dumps(dict(site='direction', metric=name)))
             if name == 'logloss':
@@ -210,6 +337,48 @@ def run(ck):
                 lemmas.append((len(lemmas), f'Lemma ll_{len(lemmas)} : Rabs (- ({terms}) / {n} - {coq_R(v)}) <= {coq_R(2e-5 * (1 + abs(v)))}.\nProof. interval with (i_prec 50). Qed.'))
             else:
                 cases.append((f'c{k}{name}', f'rel_close (3#1000000) {coq_Q(v)} ({name} {nl(y.tolist())} {coq_Qmat(P.tolist())})'))
+    # ---------- predictions designed through their CONFUSION MATRIX: the corners of the per-class definitions ----------
+    # (a class that is predicted but never correctly: TP = 0 with FP > 0 and FN > 0, i.e. precision = recall = 0; a class predicted exactly once, wrongly; two classes
+    #  swapped wholesale; a class never predicted; precision exactly 1; recall exactly 1; every class shifted; only one class ever hit; sparse random confusion) for
+    #  2..5 classes, four size profiles (one target per class .. one dominant class), four probability styles (1e-6-sharp, soft, small margin, float64 probabilities)
+    import warnings
+    crng = np.random.default_rng(ck.seed + 1667)
+    NP = len(CONF_PATTERNS)
+    for idx in range(ck.n(2 * 4 * NP, 12 * 4 * NP)):
+        K = 2 + idx % 4; pat = CONF_PATTERNS[(idx // 4) % NP]; rnd = idx // (4 * NP)
+        cfocus = (1 + rnd + (idx // 4)) % K                   # binary: the positive class first
+        style = CONF_STYLES[(idx + idx // 4 + rnd) % 4]; profile = (idx // 4 + idx // 2 + rnd) % 4
+        m = conf_counts(crng, K, profile)
+        C = conf_matrix(crng, K, m, pat, cfocus)
+        y, yh = conf_labels(crng, C)
+        P = conf_probas(crng, yh, K, style)
+        n = len(y); yt, pt = torch.tensor(y), torch.tensor(P)
+        desc = (f'{K} classes, confusion matrix (rows=true, cols=predicted) {C.tolist()}' + (f', y_true={y.tolist()} predicted labels={yh.tolist()}' if n <= 16 else f', {n} rows')
+                + f' [{pat}, focus class {cfocus}, {style} probabilities]')
+        rep0 = dict(K=K, pattern=pat, focus_class=cfocus, style=style, confusion=C.tolist(), y=y.tolist(), predicted_labels=yh.tolist(), P=P.tolist(), P_dtype=str(P.dtype))
+        eye = np.eye(K, dtype=P.dtype)[y]
+        for name, orc in (('f1', o_f1), ('accuracy', o_acc), ('auc', o_auc), ('brier', o_brier), ('logloss', o_logloss)):
+            want = float(orc(y, P))
+            try:
+                with warnings.catch_warnings():
+                    warnings.simplefilter('ignore')
+                    v = float(Metric.from_name(name).compute(y_true_class=yt, y_pred_proba=pt))
+                    vt = float(Metric.from_name(name).compute(y_true_class=yt, y_pred_proba=torch.tensor(eye))) if name != 'logloss' else None
+            except Exception as e:
+                ck.violation(f'{name} raised {e!r} on {desc}', dict(rep0, metric=name), key=json.dumps(dict(site='raise', metric=name))); continue
+            ck.case(dict(metric=name, kind='confusion:' + pat, y=y.tolist(), P=P.tolist(), value=v), nontrivial=True, sample=(idx == 0 and name == 'f1'))
+            ck.count(f'{name}:confusion-designed {pat}')
+            if nonfinite(ck, name, v, f'{desc}; textbook value {want}', dict(rep0, want=want), regime='confusion-designed'):
+                continue
+            tol = (5e-6 * abs(want) + 1e-13) if name == 'brier' else (3e-6 * (1 + abs(want)) if name != 'logloss' else 2e-5 * (1 + abs(want)))
+            if not abs(v - want) <= tol:
+                ck.violation(f'{name} returned {v}, textbook value {want}, on {desc}', dict(rep0, metric=name, got=v, want=want),
+                             key=json.dumps(dict(site='value', metric=name, kind='confusion-designed')))
+            if vt is not None and not ((vt >= v) if flags[name] else (vt <= v)):
+                ck.violation(f'{name}: predictions identical to the targets score {vt}, these predictions score {v} (direction flag {flags[name]}): {desc}',
+                             dict(rep0, metric=name, identical=vt, other=v), key=json.dumps(dict(site='direction-identical', metric=name)))
+            if n <= 14 and name in ('f1', 'accuracy') and style != 'float64':
+                cases.append((f'cf{idx}{name}', f'rel_close (3#1000000) {coq_Q(v)} ({name} {nl(y.tolist())} {coq_Qmat(P.tolist())})'))
     res = ck.run_bool_cases('metrics', HEADER, cases, shard=150)
     bad = [k for k, v in res.items() if v is not True]
     ck.obligation(f'correspondence: {len(cases)} Metric.compute values / flags == Coq Q model', 'correspondence', not bad, f'first mismatches: {bad[:8]}')
